@@ -459,7 +459,9 @@ class GroupEffectsMatrix:
             groups = term.groups
             term_slice = self.slices[name]
             term_slice_width = get_slice_width(term_slice)
-            levels_n = len(term.expr.levels) if has_levels else 1
+            # Columns of the effect: the training block holds one copy of them per group (a numeric
+            # effect such as a spline basis has several columns but no levels)
+            levels_n = term.data.shape[1] // len(groups)
             if term_slice_width != len(groups) * levels_n:  # Has extra groups
                 assert (
                     term_slice_width == (len(groups) + 1) * levels_n
